@@ -214,7 +214,9 @@ func (c *Compiler) expandModule(module *parse.Module) {
 	if err := c.expandGroupings(nod, nod, schema.Current); err != nil {
 		c.error(nod, err)
 	}
-	for _, sm := range module.GetSubmodules() {
+	// (in include order: what expanding one submodule leaves behind in the
+	// groupings of another must not depend on the iteration order of the map)
+	for _, sm := range submodulesIncludedFirst(module.GetSubmodules()) {
 		if err := c.expandGroupings(nod, sm, schema.Current); err != nil {
 			c.error(sm, err)
 		}
